@@ -207,6 +207,9 @@ func TestC19_PointerShapes(t *testing.T) {
 	for _, b := range labelCumulativeBuffers() {
 		c19dec.one(t, obs.Hex(b))
 	}
+	for _, b := range labelEdgeBuffers() {
+		c19dec.one(t, obs.Hex(b))
+	}
 	c19dec.rec.Class("pointer rings and chains")
 }
 
